@@ -16,8 +16,8 @@ typedef struct { ent e[MAXL]; int n; int kind; int expressible; } side;
 static side S[2];           /* 0 = base, 1 = override */
 static int Lmax = 3;
 static int family;          /* 0 = full alphabet up to Lmax; 1.. = 2-symbol sub-alphabet families */
-static const char *GN[3] = { NULL, "A", "B" };
-static const char *KN[2] = { "x", "y" };
+static const char *GN[3] = { NULL, "A", "AB" };   /* "A" is a proper prefix of "AB" on purpose */
+static const char *KN[2] = { "x", "xy" };        /* "x" is a proper prefix of "xy" on purpose */
 
 /* 2-symbol sub-alphabets for the long family: pairs of (g,k) symbols that force collisions */
 static const int SUB[][2][2] = {
